@@ -81,6 +81,13 @@ def generate(tier, rng):
                     stk = [rng.randint(0, 40) for _ in range(N)] if k % 2 else sorted(rng.randint(0, 60) for _ in range(N))
                     cases.append(dict(stream="exact" if ex else "tolerance", coq=ex, cls="sdsm", solver=solver, grid=grid, gname=gname, extra=extra, lifetime=lt, driver=stk,
                                       int_dtype=(k % 3 != 1), time_letter=("y" if k % 4 == 2 else "t")))
+            # a phase-out: the driver set to exactly zero on an object that was computed with a non-zero one before
+            for cls_, solver_ in (("idsm", None), ("sdsm", "manual")):
+                z = dict(stream="exact" if ex else "tolerance", coq=ex, cls=cls_, grid=grid, gname=gname, extra=extra,
+                         lifetime=lifetimes(rng, grid, extra, k)[0], driver=[0] * N, history="other_first")
+                if solver_:
+                    z["solver"] = solver_
+                cases.append(z)
             # fixed lifetime (0/1 survival) for the inflow-driven model
             cases.append(dict(stream="exact" if ex else "tolerance", coq=ex, cls="idsm", grid=grid, gname=gname, extra=extra,
                               lifetime=dict(kind="fixed", mean=[3, 7, 12][k % 3], inflow_at="start"), driver=[rng.randint(0, 8) for _ in range(N)]))
@@ -99,13 +106,17 @@ def generate(tier, rng):
                 cases.append(dict(stream="tolerance", coq=False, cls="idsm", grid=grid, gname=gname, extra=extra, lifetime=lt, driver=drv))
                 cases.append(dict(stream="tolerance", coq=False, cls="sdsm", solver=["manual", "lapack"][k % 2], grid=grid, gname=gname,
                                   extra=extra, lifetime=lt, driver=[rng.randint(5, 40) for _ in range(N)], int_dtype=(len(cases) % 2 == 0)))
+    # every case is the last step of a short history on its objects (computed twice, another driver first, a lifetime model
+    # shared with a stock computed before): 'after compute()' holds whatever happened before
+    for i, c in enumerate(cases):
+        if "history" not in c:
+            c["history"] = sd.HISTORIES[i % 4]
     return cases
 
 
 def run_impl(case):
     try:
-        st = sd.mk_stock(case)
-        st.compute()
+        st = sd.computed_stock(case)
     except Exception as e:  # noqa
         return dict(kind="err", exc=type(e).__name__, msg=str(e)[:200])
     o = sd.observe_stock(st, snap=(case["stream"] == "exact"))
